@@ -225,7 +225,7 @@ func (r *scenResult) Violationf(sig, f string, a ...any) {
 }
 
 // bodyC01 runs the scenario; a violation candidate is only reported if it
-// shows again in at least two of three re-runs of the same scenario. Memberlist
+// shows again in at least two of up to five re-runs of the same scenario. Memberlist
 // timing is not owned by the harness: on the unchanged tree about one scenario
 // in a thousand ends in a wrong-but-stable view that never shows again when the
 // very same scenario is replayed (restart races between a node's new memberlist
@@ -246,9 +246,9 @@ func bodyC01(c c01Case, x *vkit.Ctx) {
 	}
 	again := 0
 	var reruns []string
-	for i := 0; i < 3; i++ {
-		if i == 2 && again == 0 {
-			break // two more re-runs can no longer be reached
+	for i := 0; i < 5 && again < 2; i++ {
+		if i == 4 && again == 0 {
+			break // two reproductions can no longer be reached
 		}
 		rr := runScenarioC01(c)
 		switch {
@@ -305,6 +305,10 @@ func scenarioC01(c c01Case, x *scenResult) {
 			// re-merges a briefly partitioned cluster; keep it short so that longer
 			// partitions can only be healed by Serf's own reconnect logic
 			sc.MemberlistConfig.GossipToTheDeadTime = 60 * time.Millisecond
+			// frequent state syncs: push/pull merges then land inside the short
+			// windows of a leave (intent out, memberlist leave pending) and of a
+			// restart, which is where the anti-entropy rules earn their keep
+			sc.MemberlistConfig.PushPullInterval = 80 * time.Millisecond
 		}})
 		if err != nil {
 			x.Inconclusive("create: " + err.Error())
